@@ -5,8 +5,8 @@
    The flag g = false is the code on this tree, g = true the dependency's UnmarshalBytes with the
    missing guard (ln < 0 || ln+idx < idx -> error).  Unquote / Quote / time.Format are universally
    quantified parameters; go_unquote is the concrete model of strconv.Unquote. *)
-From LR Require Import lib.Base lib.DecLib model.DecXBinary model.DecKV model.DecFields model.DecUtf8 model.DecUnquote model.DecWire model.DecPos model.Json model.Formatter.
-From LR Require Import proofs.DecXBinaryP proofs.DecKVP proofs.DecFieldsP proofs.DecWireP proofs.DecPosP proofs.JsonP proofs.FormatterP proofs.DecStoredP.
+From LR Require Import lib.Base lib.DecLib model.DecXBinary model.DecKV model.DecFields model.DecUtf8 model.DecUnquote model.DecWire model.DecPos model.Json model.Formatter model.DecLqlTime.
+From LR Require Import proofs.DecXBinaryP proofs.DecKVP proofs.DecFieldsP proofs.DecWireP proofs.DecPosP proofs.JsonP proofs.FormatterP proofs.DecStoredP proofs.DecLqlTimeP.
 
 (* ------------------------------------------------------------------ the dependency's varint / bytes decoder *)
 
@@ -128,6 +128,12 @@ Theorem C13_total_format_parser : forall s, safe (format_parse s).
 Proof. exact format_parse_safe. Qed.
 Print Assumptions C13_total_format_parser.
 
+(* LQL time literals (RANGE, WHERE ts, TRUNCATE BEFORE): the relative-literal front end of parseLqlDateTime,
+   for every ParseFloat; empty and all-blank literals are errors, never an index out of range *)
+Theorem C13_total_lql_time : forall parse_float dt0, safe (lql_rel_time parse_float dt0).
+Proof. exact lql_rel_time_safe. Qed.
+Print Assumptions C13_total_lql_time.
+
 (* ------------------------------------------------------------------ Check-then-Value / AsKVString *)
 
 Definition C13_check_then_value_statement : Prop := forall f name, check f = Ok tt -> safe (value f name).
@@ -232,6 +238,12 @@ Proof.
   exists [[x61]; [x62; x63]; []; [x64]]. split; [vm_compute; reflexivity|]. split; [reflexivity|].
   repeat constructor; vm_compute; discriminate.
 Qed.
+
+(* the front end accepts a relative literal with blanks and upper case, and rejects the empty / blank / lone '-' ones *)
+Example C13_ex_lql_time : lql_rel_time (fun _ => true) [x20; x2d; x31; x2e; x35; x48; x20] = Ok tt /\
+  lql_rel_time (fun _ => true) [] = Err /\ lql_rel_time (fun _ => true) [x20; x20] = Err /\
+  lql_rel_time (fun _ => true) [x2d] = Err /\ lql_rel_time (fun _ => true) [x2d; x6d] = Ok tt.
+Proof. repeat split; vm_compute; reflexivity. Qed.
 
 (* EscapeJsonStr on a text without U+FFFD: control characters, quotes, a valid and an invalid non-ASCII byte *)
 Example C13_ex_escape : escape_json [x61; x22; x0a; x01; xc3; xa9; x80] =
